@@ -908,8 +908,29 @@ def check_property(pid, tier="quick", seed=0):
                 solver_ms["%s::%s" % (v.unit, fb["function"])] = {"ms": fb["ms"], "rlimit": fb["rlimit"], "success": fb["success"]}
         if v.twin_ran:
             twin[v.unit] = {"functions_without_reachable_end": v.twin_missing}
+        # masking: after a failed assertion the verifier ASSUMES it, so a failing clause that does not belong to this property
+        # (a neutral shape/model clause or another property's) hides every later clause of the same function; the property's
+        # clauses in such a function are not counted as discharged and the unit is undecided for this property
+        all_open = set(k["obligation"] for k in known.get("findings", []) if k.get("status") == "open")
+        foreign = [t for t in v.failed if t not in mine and not (asm.known.get(t) and t in all_open)]
+        masked_fns = set()
+        for t in foreign:
+            for f in v.failed[t]:
+                for (s0, e0, lab) in asm.fn_ranges:
+                    if s0 <= f.get("line", 0) <= e0:
+                        masked_fns.add((s0, e0, lab))
+        masked_tags = set()
+        if masked_fns:
+            for ln, tgs in asm.tags.items():
+                if any(s0 <= ln <= e0 for (s0, e0, lab) in masked_fns):
+                    masked_tags.update(t for t in tgs if t in mine and t not in v.failed)
+            if masked_tags:
+                undecided.append("unit %s: clause(s) %s failed in %s; the property's clauses %s in the same function(s) are not decided by this run" % (
+                    v.unit, ", ".join(sorted(foreign)[:4]), ", ".join(sorted(set(lab for (_, _, lab) in masked_fns))[:3]), ", ".join(sorted(masked_tags)[:6])))
         for t in mine:
             obligations.append((v.unit, t))
+            if t in masked_tags:
+                continue
             if t in v.failed:
                 kid = asm.known.get(t)
                 if kid and t in open_known:
